@@ -1,6 +1,9 @@
 package rules
 
 import (
+	"os"
+	"fmt"
+	"strconv"
 	"go/types"
 	"go/token"
 	"sort"
@@ -338,6 +341,10 @@ func c20(w *core.World, r *core.Report) {
 	ruleBisyncRestoreReplace(w, r)
 	r.Rule("R20.11", "all chunks of one key reach the worker that made the key-exists decision: the distributor picks the worker of a keyed entry from the key alone", 1)
 	ruleChunksSameWorker(w, r)
+	r.Rule("R20.13", "the policy value the replay paths switch on is one of replace / ignore / error on every successful path of the configuration's fix", 1)
+	rulePolicyValueNormalised(w, r)
+	r.Rule("R20.12", "a chunked value is known as such from its first chunk", 1)
+	ruleSplitKnownFromFirstChunk(w, r)
 	r.Rule("R20.8", "bidirectional replay: a BUSYKEY reply to RESTORE is tolerated only under the ignore policy", 1)
 	if g := fn(w, r, "(*syncer.RedisOutput).validateBisyncRdbExecReplies"); g != nil {
 		// the loop over the EXEC replies: the one that asks whether a reply is an error reply
@@ -858,4 +865,247 @@ func ruleChunksSameWorker(w *core.World, r *core.Report) {
 	if n == 0 {
 		r.Fail("sendRdb/chunks-same-worker", f.Pos(), "the distributor's send into the worker channels was not found")
 	}
+}
+
+// ---------------------------------------------------------------- R20.12 a chunked value is known as such from its first chunk
+
+// ruleSplitKnownFromFirstChunk: both replay paths decide on the first chunk how
+// the whole value is replayed (RESTORE is impossible for a chunked value; the
+// ignored-key memo and the DEL are set up there). IsSplited must therefore be
+// true for the first chunk too: false only when nothing was handed out before
+// AND nothing remains to be read.
+func ruleSplitKnownFromFirstChunk(w *core.World, r *core.Report) {
+	f := fn(w, r, "(*pkg/rdb.BaseParser).IsSplited")
+	if f == nil {
+		return
+	}
+	isField := func(name string) func(ssa.Value) bool {
+		return func(v ssa.Value) bool { return fieldNameOfLoad(core.Unwrap(v)) == name }
+	}
+	bad := ""
+	var pos token.Pos = f.Pos()
+	nFalse, nTrue := 0, 0
+	okEnum := core.EnumPathsN(f.Blocks[0], 0, 10000, core.Unroll, func(p *core.Path) {
+		ret, ok := p.End.(*ssa.Return)
+		if !ok || len(ret.Results) != 1 || bad != "" {
+			return
+		}
+		val, known := p.Eval(ret.Results[0])
+		if !known {
+			if b, isC := core.ConstBool(p.Resolve(ret.Results[0])); isC {
+				val, known = b, true
+			}
+		}
+		if !known {
+			bad, pos = "the result is not decided on a path", ret.Pos()
+			return
+		}
+		if val {
+			nTrue++
+			return
+		}
+		nFalse++
+		noHistory, noneLeft := false, false
+		for _, fct := range p.Conds {
+			c, ok := core.FactCmp(fct)
+			if !ok {
+				continue
+			}
+			x, y := p.Resolve(c.X), p.Resolve(c.Y)
+			if c.Op == token.EQL && isField("historyEntries")(x) && isConstInt(0)(y) {
+				noHistory = true
+			}
+			if d, isB := core.Unwrap(x).(*ssa.BinOp); isB && d.Op == token.SUB && isField("totalEntries")(d.X) && isField("readEntries")(d.Y) && isConstInt(0)(y) && (c.Op == token.LEQ || c.Op == token.EQL) {
+				noneLeft = true
+			}
+			if (c.Op == token.LEQ || c.Op == token.EQL) && isField("totalEntries")(x) && isField("readEntries")(y) {
+				noneLeft = true
+			}
+			if (c.Op == token.GEQ || c.Op == token.EQL) && isField("readEntries")(x) && isField("totalEntries")(y) {
+				noneLeft = true
+			}
+		}
+		if !noHistory || !noneLeft {
+			bad, pos = "a chunk is reported as 'not split' on a path that did not establish both: nothing was handed out before, and nothing remains to be read — the first chunk of a split value then takes the whole-value path (RESTORE, no memo), and the later chunks are merged into the existing key", ret.Pos()
+		}
+	})
+	if !okEnum {
+		r.Undecided("BaseParser.IsSplited/first-chunk", f.Pos(), "too many paths")
+		return
+	}
+	r.Check(bad == "" && nFalse > 0 && nTrue > 0, "BaseParser.IsSplited/first-chunk", pos, "%s (false paths=%d true paths=%d)", bad, nFalse, nTrue)
+}
+
+// ---------------------------------------------------------------- R20.13 the policy the replay paths switch on is one of the three
+
+// rulePolicyValueNormalised: Replay and the bidirectional builder compare the
+// configured policy with the exact words replace / ignore / error and have no
+// default branch: any other value ("", "Error", " ignore") silently selects no
+// policy at all — BUSYKEY is swallowed, no DEL is issued, chunks are merged.
+// The configuration's fix must therefore leave the field holding one of the
+// three words on every successful path: a constant of the set, or a value the
+// path has tested for membership in the set — the same value, not a normalised
+// copy of it.
+func rulePolicyValueNormalised(w *core.World, r *core.Report) {
+	f := fn(w, r, "(*config.ReplayConfig).fix")
+	if f == nil {
+		return
+	}
+	policies := map[string]bool{"replace": true, "ignore": true, "error": true}
+	isKeyExistsAddr := func(a ssa.Value) bool {
+		fa, ok := a.(*ssa.FieldAddr)
+		return ok && core.FieldName(fa) == "KeyExists" && strings.HasSuffix(core.TypeName(fa.X.Type()), "ReplayConfig")
+	}
+	live := map[*ssa.BasicBlock]bool{}
+	for _, b := range f.Blocks {
+		for _, in := range b.Instrs {
+			if st, ok := in.(*ssa.Store); ok && isKeyExistsAddr(st.Addr) {
+				live[b] = true
+			}
+			if ld, ok := in.(*ssa.UnOp); ok && ld.Op == token.MUL && isKeyExistsAddr(ld.X) {
+				live[b] = true
+			}
+		}
+	}
+	for changed := true; changed; {
+		changed = false
+		for _, b := range f.Blocks {
+			if live[b] {
+				continue
+			}
+			for _, sc := range b.Succs {
+				if live[sc] {
+					live[b], changed = true, true
+				}
+			}
+		}
+	}
+	constList := func(v ssa.Value) bool {
+		// a literal []string{…} of policy words, or a package-level list/map of them
+		if els, ok := core.VariadicElems(v); ok && len(els) > 0 {
+			for _, e := range els {
+				s, isS := core.ConstString(e)
+				if !isS || !policies[s] {
+					return false
+				}
+			}
+			return true
+		}
+		return constStringsOf(w, v, policies)
+	}
+	bad := ""
+	var pos token.Pos = f.Pos()
+	n := 0
+	seen := map[string]bool{}
+	okEnum := core.EnumPathsStop(f.Blocks[0], 0, 400000, 1, func(b *ssa.BasicBlock) bool { return !live[b] }, func(p *core.Path) {
+		if bad != "" {
+			return
+		}
+		if ret, isRet := p.End.(*ssa.Return); isRet && !pathNil(p, ret.Results[len(ret.Results)-1]) {
+			return // a configuration error: nothing is replayed
+		}
+		cur := "init"
+		loadVal := map[ssa.Value]string{}
+		term := func(v ssa.Value) string {
+			v = core.Unwrap(p.Resolve(v))
+			if t, ok := loadVal[v]; ok {
+				return t
+			}
+			if s, ok := core.ConstString(v); ok {
+				return "c:" + s
+			}
+			return fmt.Sprintf("v:%p", v)
+		}
+		member := map[string]bool{}
+		ci := 0
+		for _, in := range p.Instrs {
+			switch x := in.(type) {
+			case *ssa.UnOp:
+				if x.Op == token.MUL && isKeyExistsAddr(x.X) {
+					loadVal[x] = cur
+				}
+			case *ssa.Store:
+				if isKeyExistsAddr(x.Addr) {
+					cur = term(x.Val)
+				}
+			case *ssa.If:
+				for ci < len(p.Conds) && p.Conds[ci].If != x {
+					ci++
+				}
+				if ci >= len(p.Conds) {
+					continue
+				}
+				fct := p.Conds[ci]
+				ci++
+				cond := core.Unwrap(p.Resolve(fct.Cond))
+				if c, ok := cond.(*ssa.Call); ok && fct.Val {
+					nm := core.ResolveCall(c).Name
+					if (strings.HasSuffix(nm, "slices.Contains") || strings.Contains(nm, "slices.Contains[")) && len(c.Call.Args) == 2 && constList(c.Call.Args[0]) {
+						member[term(c.Call.Args[1])] = true
+					}
+				}
+				if e, ok := cond.(*ssa.Extract); ok && e.Index == 1 && fct.Val {
+					if lk, isLk := e.Tuple.(*ssa.Lookup); isLk && lk.CommaOk && constMapKeysIn(w, lk.X, policies) {
+						member[term(lk.Index)] = true
+					}
+				}
+				if c, ok := core.FactCmp(fct); ok && c.Op == token.EQL {
+					if s, isS := core.ConstString(p.Resolve(c.Y)); isS && policies[s] {
+						member[term(c.X)] = true
+					}
+					if s, isS := core.ConstString(p.Resolve(c.X)); isS && policies[s] {
+						member[term(c.Y)] = true
+					}
+				}
+			}
+		}
+		if len(loadVal) == 0 && cur == "init" {
+			return // left the function (a configuration error) before the policy was looked at
+		}
+		if seen[cur] {
+			return
+		}
+		seen[cur] = true
+		n++
+		if os.Getenv("GUNYU_DEBUG") != "" {
+			fmt.Println("DEBUG policy path: cur=", cur, "members=", member, "end=", p.End, "conds=", len(p.Conds))
+		}
+		if strings.HasPrefix(cur, "c:") {
+			if !policies[cur[2:]] {
+				bad, pos = "the key-exists policy ends up as the constant "+strconv.Quote(cur[2:])+", which none of the replay paths' policy switches knows", p.End.Pos()
+			}
+			return
+		}
+		if !member[cur] {
+			bad, pos = "the key-exists policy the replay paths will switch on was not tested against replace / ignore / error on this path (the test, if any, was applied to another value, for instance a lower-cased copy that is not stored back): a value such as \"Error\" selects no policy at all", p.End.Pos()
+		}
+	})
+	if !okEnum {
+		r.Undecided("ReplayConfig.fix/key-exists-policy", f.Pos(), "too many paths")
+		return
+	}
+	r.Check(bad == "" && n > 0, "ReplayConfig.fix/key-exists-policy", pos, "%s (distinct final values=%d)", bad, n)
+}
+
+// constMapKeysIn: v is (a load of) a package-level map whose literal keys are all allowed strings.
+func constMapKeysIn(w *core.World, v ssa.Value, allowed map[string]bool) bool {
+	g, ok := core.Unwrap(v).(*ssa.Global)
+	if !ok {
+		if ld, isLd := core.Unwrap(v).(*ssa.UnOp); isLd {
+			g, ok = ld.X.(*ssa.Global)
+		}
+	}
+	if !ok || g.Pkg == nil {
+		return false
+	}
+	keys, _, found := astCompositeStrings(w, core.Short(g.Pkg.Pkg.Path()), g.Name(), true)
+	if !found || len(keys) == 0 {
+		return false
+	}
+	for _, k := range keys {
+		if !allowed[k] {
+			return false
+		}
+	}
+	return true
 }
